@@ -89,14 +89,14 @@ PROPS['C03'] = dict(
 
 PROPS['C04'] = dict(
     level='other',
-    technique='contract-based deductive verification (pyvc + z3, Lean bridge) for is_empty and is_deterministic; bounded run-time contract checking for is_acyclic and get_accepted_words',
+    technique='contract-based deductive verification (pyvc + z3, Lean bridge) for is_empty, is_deterministic and one direction of is_acyclic; bounded run-time contract checking for the other direction of is_acyclic and for get_accepted_words',
     level_text=('Deductive for EpsilonNFA.is_empty (worklist reachability, all automata, all orders; Lean lemma empty gives "no word accepted") and EpsilonNFA.is_deterministic '
-                '(postcondition is the property wording). is_acyclic and get_accepted_words (order-dependent pruning, generator, termination) are bounded only. Mixed => other.'),
+                '(postcondition is the property wording). is_acyclic: the answer False is proved sound (a cycle reachable from a start state exists: every pair in the work list holds a reachable state and a set of reachable states that reach it in at least one step); that the answer True excludes every reachable cycle (exhaustiveness of the path search) and get_accepted_words (order-dependent pruning, generator, termination) are bounded only. Mixed => other.'),
     level_note='Trusted: VC generator, z3, Lean+Mathlib, closure-induction schema instances, value assumptions; termination of get_accepted_words on finite languages is only observed on the bounded scope with a step budget.',
-    pyvc=fa('ENFA.is_empty', 'ENFA.__bool__', 'ENFA.is_deterministic', 'NFA.is_deterministic', 'DFA.is_deterministic', 'ENFA.eclose', 'ENFA._get_next_states_from', 'ENFA._get_reachable_states', 'ENFA._get_states_leading_to_final') + [('contracts.fa_concrete', 'NTF.is_deterministic')],
+    pyvc=fa('ENFA.is_empty', 'ENFA.__bool__', 'ENFA.is_acyclic', 'ENFA.is_deterministic', 'NFA.is_deterministic', 'DFA.is_deterministic', 'ENFA.eclose', 'ENFA._get_next_states_from', 'ENFA._get_reachable_states', 'ENFA._get_states_leading_to_final') + [('contracts.fa_concrete', 'NTF.is_deterministic')],
     lean=['bridge/empty.lean', 'bridge/Link.lean'],
     bounded='bounded.c04', replayer='bounded.replay_fa',
-    bounded_only=['FiniteAutomaton.is_acyclic', 'FiniteAutomaton.get_accepted_words', '_get_states_leading_to_final', 'NFA.is_deterministic', 'DFA.is_deterministic'],
+    bounded_only=['FiniteAutomaton.is_acyclic (answer True)', 'FiniteAutomaton.get_accepted_words', '_get_states_leading_to_final', 'NFA.is_deterministic', 'DFA.is_deterministic'],
     explanation='mixed: is_empty and is_deterministic proved; acyclicity and enumeration bounded',
     rule='case = one automaton built as every legal class; non-trivial = non-empty language with a nondeterministic or epsilon step',
     exhaustive_part=True,
